@@ -1,6 +1,6 @@
 """C02 — outbound packets are spec-conformant and carry what the user supplied: configuration of ./check C02."""
 
-PROP = {'areas': [{'area': 'c02', 'corpus': ['corpus/C02/d3_subscribe_subid.txt', 'corpus/C02/boundaries.txt'], 'quick': 20000, 'thorough': 1000000}],
+PROP = {'areas': [{'area': 'c02', 'corpus': ['corpus/C02/d3_subscribe_subid.txt', 'corpus/C02/boundaries.txt', 'corpus/C02/trailing_empty.txt'], 'quick': 20000, 'thorough': 1000000}],
  'coq_target': 'Properties/C02.vo',
  'modelled': 'encode.rs Encoder::reset / Encoder::encode / process_encoding_step / encode_vli / compute_variable_length_integer_encode_size and all '
              'length / step macros; mqtt/{connect,publish,puback,pubrec,pubrel,pubcomp,subscribe,unsubscribe,pingreq,disconnect,auth}.rs '
@@ -13,7 +13,7 @@ PROP = {'areas': [{'area': 'c02', 'corpus': ['corpus/C02/d3_subscribe_subid.txt'
          'small random ones and rarely > 65535; well-formed UTF-8 with boundary code points of every encoded length; 0..15 user properties, 0..23 '
          'subscriptions / filters; every legal reason code) x protocol version x alias resolution (skip_topic, alias) x 1..5 buffer capacities >= 4 '
          '(rarely < 4) with random prefill.  The packet text goes to the facade command ENC (the crate\'s Encoder, one call per buffer) and to the '
-         'extracted model (ImplEncode.impl_steps + Steps.encode_call per buffer); bytes / error kind / panic are compared (tie).  Monitor: for packets '
+         'extracted model (ImplEncode.impl_steps + Steps.encode_call per buffer); bytes / error kind / panic are compared (tie); in a fifth of the cases the capacity list is cut to exactly the number of calls the model needs (or one fewer) and followed by a capacity 3, which makes the NUMBER of encode calls observable (one call too many panics).  Monitor: for packets '
          'satisfying ValidC2S.valid the extracted reference decoder applied to the IMPLEMENTATION\'s bytes must return ValidC2S.canon of the packet '
          'with nothing left, and a second run with one large buffer must give the same bytes.  distinct = distinct (packet, version, resolution, '
          'capacities); non-trivial = valid packet encoded over at least two encode calls'}
